@@ -325,9 +325,13 @@ bool Plan::DyndepsLoaded(DependencyScan* scan,
                          const std::vector<Node*>& dyndep_nodes,
                          const std::unordered_map<Edge*, Dyndeps>& dyndep_edges,
                          std::string* err) {
+  // Edges added to the plan or newly wanted below; those that are ready are
+  // scheduled at the end.
+  std::set<Edge*> dyndep_walk;
+
   // Recompute the dirty state of all our direct and indirect dependents now
   // that our dyndep information has been loaded.
-  if (!RefreshDyndepDependents(scan, dyndep_nodes, err))
+  if (!RefreshDyndepDependents(scan, dyndep_nodes, &dyndep_walk, err))
     return false;
 
   // We loaded dyndep information for those out_edges of the dyndep nodes that
@@ -358,7 +362,6 @@ bool Plan::DyndepsLoaded(DependencyScan* scan,
   }
 
   // Walk dyndep-discovered portion of the graph to add it to the build plan.
-  std::set<Edge*> dyndep_walk;
   for (std::vector<std::unordered_map<Edge*, Dyndeps>::const_iterator>::iterator
            oei = dyndep_roots.begin();
        oei != dyndep_roots.end(); ++oei) {
@@ -398,6 +401,7 @@ bool Plan::DyndepsLoaded(DependencyScan* scan,
 
 bool Plan::RefreshDyndepDependents(DependencyScan* scan,
                                    const std::vector<Node*>& dyndep_nodes,
+                                   std::set<Edge*>* dyndep_walk,
                                    string* err) {
   // Collect the transitive closure of dependents and mark their edges
   // as not yet visited by RecomputeDirty.
@@ -418,13 +422,15 @@ bool Plan::RefreshDyndepDependents(DependencyScan* scan,
       return false;
 
     // Add any validation nodes found during RecomputeDirty as new top level
-    // targets.
+    // targets.  They join the dyndep walk so that an edge whose inputs are
+    // already ready gets scheduled: nothing else would ever wake it up.
     for (std::vector<Node*>::iterator v = validation_nodes.begin();
          v != validation_nodes.end(); ++v) {
       if (Edge* in_edge = (*v)->in_edge()) {
-        if (!in_edge->outputs_ready() &&
-            !AddTarget(*v, err)) {
-          return false;
+        if (!in_edge->outputs_ready()) {
+          targets_.push_back(*v);
+          if (!AddSubTarget(*v, NULL, err, dyndep_walk) && !err->empty())
+            return false;
         }
       }
     }
